@@ -1,11 +1,14 @@
 #!/usr/bin/env bash
 # Unchanged-tree runs under several seeds, each in a fresh process (AGENT_BRIEF).
+# usage: run_seeds.sh "<seeds>" <ID>...
 out=/verif/work/sim/seeds.log
+seeds=$1; shift
 for p in "$@"; do
-  for s in 1 2 3 4 5; do
+  for s in $seeds; do
     start=$(date +%s)
-    line=$(/verif/check "$p" --tier quick --seed "$s" 2>/dev/null | grep -E "^(PASS|FAIL|INCONCLUSIVE|VIOLATION)" | cut -c1-300 | tr '\n' ' ')
-    rc=${PIPESTATUS[0]}
-    echo "$p seed=$s secs=$(( $(date +%s)-start )) $line" | tee -a "$out"
+    /verif/check "$p" --tier quick --seed "$s" > /verif/work/sim/seed-run.out 2>/dev/null
+    rc=$?
+    line=$(grep -E "^(PASS|FAIL|INCONCLUSIVE|VIOLATION|HARNESS)" /verif/work/sim/seed-run.out | cut -c1-260 | tr '\n' ' ')
+    echo "$p seed=$s exit=$rc secs=$(( $(date +%s)-start )) $line" | tee -a "$out"
   done
 done
